@@ -1,69 +1,61 @@
-// C17 harness: executes the real i_ga / i_de operators and prints every execution as one step in the
-// format of lean/Vita/C17/Driver.lean (integers in decimal, doubles as u64 bit patterns).
+// C17 harness: executes the real i_ga / i_de operators and the strategy-level recombination operators and
+// prints what it OBSERVED (genomes, ages, counters).  It never prints an interval: the intervals / boxes / weight
+// intervals are the ones the REQUEST wrote (the checker keeps them), the harness only DECLARES them to the
+// library through the public way the request names.
 //
-//   gc <vseed> <count> <lo hi>...                       i_ga(problem), `count` times
-//   gseq <vseed> <opseed> <steps> <lo hi>...            operator sequence on a pool of 6 individuals:
-//                                                       mutation (p in {0,.05,.3,.5,1}) / crossover
-//   dc <vseed> <count> <lobits hibits>...               i_de(problem), `count` times
-//   dx <vseed> <opseed> <trials> <pbits> <wlobits> <whibits> <mode> <lobits hibits>...
-//        mode 0: target/a/b/c are randomly created individuals
-//        mode 1: their genomes are overwritten with adversarial values (equal donors, huge base with tiny
-//                difference, zeros, target equal to the mutant …) drawn from opseed
-//   answer: steps separated by " ;; "
+// slot token      <cat>:<way>:<lo>:<hi>     one terminal of category <cat> (categories 0,1,2… in order; several
+//                                           tokens may share a category = several terminals in one category)
+//                 GA: lo/hi decimal integers;  DE: lo/hi = u64 bit patterns of doubles
+//   way = kind*100 + tA*10 + tB   tA/tB: C++ type of the first / second endpoint as the user writes it
+//         types 0 double 1 int 2 long 3 float 4 unsigned 5 short 6 long long 7 std::size_t
+//         kind 0  prob.insert(vita::range(A(lo), B(hi)))            rvalues
+//              1  A a(lo); B b(hi); prob.insert(vita::range(a, b))   lvalues (pair of references)
+//              2  prob.insert(std::pair<A, B>(lo, hi))
+//              3  prob.insert(std::make_pair(A(lo), B(hi)))
+//              4  prob.sset.insert<ga::X>(range_t<V>{lo, hi}, cat)   explicit category (V = int / double)
+//              5  auto r(vita::range(A(lo), B(hi))); prob.insert(r)  named pair
+//   problem way (pway): 0 = problem(std::vector<range_t<V>>)  1 = problem(n, range_t<V>)  2 = insert per slot
+//
+// age plan: individuals get an age through the public API only – `inc_age()` loops and `load()` – and the
+//   harness keeps ITS OWN count of the generations lived (never trusts age()).
+//
+//   gc    <vseed> <count> <pway> <slot>...
+//   gseq  <vseed> <opseed> <steps> <pway> <slot>...
+//   gstr  <vseed> <opseed> <steps> <pcrossbits> <pmutbits> <brood> <pway> <slot>...     recombination::base<i_ga>::run
+//   dc    <vseed> <count> <pway> <slot>...
+//   dx    <vseed> <opseed> <trials> <pbits> <wway>:<wlobits>:<whibits> <mode> <pway> <slot>...
+//   dstr  <vseed> <opseed> <steps> <pbits> <wway>:<wlobits>:<whibits> <mode> <pway> <slot>...   recombination::de<i_de>::run
+//   laws  <lobits> <hibits> ...                                                          IEEE facts on this box
+//   answer: steps separated by " ;; " (formats: see the do_* functions; doubles as u64 bit patterns)
 #include "kernel/vita.h"
 #include "common/verif.h"
+
+#include <cmath>
+#include <limits>
 
 using namespace vita;
 
 namespace
 {
 
+using u64 = std::uint64_t;
+
 template<class V> std::string ints(const V &v)
 {
   std::string r;
   for (auto x : v) { if (!r.empty()) r += ' '; r += std::to_string(x); }
-  return r;
+  return r.empty() ? "-" : r;
 }
 
 template<class V> std::string dbits(const V &v)
 {
   std::string r;
   for (double x : v) { if (!r.empty()) r += ' '; r += std::to_string(verif::bits(x)); }
-  return r;
+  return r.empty() ? "-" : r;
 }
 
-template<class T> void set_age(T &x, unsigned a) { while (x.age() < a) x.inc_age(); }
-
-std::vector<range_t<int>> int_ranges(const std::vector<std::string> &t, std::size_t from)
-{
-  std::vector<range_t<int>> r;
-  for (std::size_t i(from); i + 1 < t.size(); i += 2)
-    r.push_back({std::stoi(t[i]), std::stoi(t[i + 1])});
-  return r;
-}
-
-std::vector<range_t<double>> real_ranges(const std::vector<std::string> &t, std::size_t from)
-{
-  std::vector<range_t<double>> r;
-  for (std::size_t i(from); i + 1 < t.size(); i += 2)
-    r.push_back({verif::from_bits(std::stoull(t[i])), verif::from_bits(std::stoull(t[i + 1]))});
-  return r;
-}
-
-std::string range_txt(const std::vector<range_t<int>> &rs)
-{
-  std::string r;
-  for (const auto &x : rs) r += " " + std::to_string(x.first) + " " + std::to_string(x.second);
-  return r;
-}
-
-std::string range_txt(const std::vector<range_t<double>> &rs)
-{
-  std::string r;
-  for (const auto &x : rs)
-    r += " " + std::to_string(verif::bits(x.first)) + " " + std::to_string(verif::bits(x.second));
-  return r;
-}
+std::string genes(const i_ga &x) { return ints(x); }
+std::string genes(const i_de &x) { return dbits(x); }
 
 void add(std::string &out, const std::string &step)
 {
@@ -71,36 +63,273 @@ void add(std::string &out, const std::string &step)
   out += step;
 }
 
+struct bad_request : std::runtime_error { using std::runtime_error::runtime_error; };
+
+// ---- declaring intervals the way a user would ---------------------------------------------------------
+struct slot { unsigned cat; unsigned way; double lo, hi; };
+
+std::vector<std::string> split_on(const std::string &s, char c)
+{
+  std::vector<std::string> r;
+  std::string cur;
+  for (char ch : s)
+    if (ch == c) { r.push_back(cur); cur.clear(); }
+    else cur += ch;
+  r.push_back(cur);
+  return r;
+}
+
+template<class V> double parse_end(const std::string &s);
+template<> double parse_end<int>(const std::string &s) { return static_cast<double>(std::stoll(s)); }
+template<> double parse_end<double>(const std::string &s) { return verif::from_bits(std::stoull(s)); }
+
+template<class V> std::vector<slot> slots(const std::vector<std::string> &t, std::size_t from)
+{
+  std::vector<slot> r;
+  for (std::size_t i(from); i < t.size(); ++i)
+  {
+    const auto f(split_on(t[i], ':'));
+    if (f.size() != 4) throw bad_request("slot " + t[i]);
+    r.push_back({unsigned(std::stoul(f[0])), unsigned(std::stoul(f[1])), parse_end<V>(f[2]), parse_end<V>(f[3])});
+  }
+  if (r.empty()) throw bad_request("no slot");
+  return r;
+}
+
+// the endpoint as a value of the C++ type the request names; the conversion must be exact (the generator only
+// asks for types that can hold the value) – otherwise the request is refused, never silently rounded
+template<class A> A exact(double v)
+{
+  if (!(v >= static_cast<double>(std::numeric_limits<A>::lowest())
+        && v <= static_cast<double>(std::numeric_limits<A>::max())))
+    throw bad_request("endpoint does not fit its type");
+  const A a(static_cast<A>(v));
+  if (static_cast<double>(a) != v) throw bad_request("endpoint not exact in its type");
+  return a;
+}
+
+template<class P> struct prob_traits;
+template<> struct prob_traits<ga_problem> { using value = int; using sym = ga::integer; using ind = i_ga; };
+template<> struct prob_traits<de_problem> { using value = double; using sym = ga::real; using ind = i_de; };
+
+template<class P, class A, class B> void declare(P &prob, const slot &s)
+{
+  using V = typename prob_traits<P>::value;
+  const A lo(exact<A>(s.lo));
+  const B hi(exact<B>(s.hi));
+  switch (s.way / 100)
+  {
+  case 0: prob.insert(vita::range(exact<A>(s.lo), exact<B>(s.hi))); break;
+  case 1: { A a(lo); B b(hi); prob.insert(vita::range(a, b)); break; }
+  case 2: prob.insert(std::pair<A, B>(lo, hi)); break;
+  case 3: prob.insert(std::make_pair(lo, hi)); break;
+  case 4: prob.sset.template insert<typename prob_traits<P>::sym>(range_t<V>{exact<V>(s.lo), exact<V>(s.hi)},
+                                                                   category_t(s.cat)); break;
+  case 5: { const auto r(vita::range(exact<A>(s.lo), exact<B>(s.hi))); prob.insert(r); break; }
+  default: throw bad_request("declaration kind");
+  }
+}
+
+template<class P, class A> void declare_b(P &prob, const slot &s)
+{
+  switch (s.way % 10)
+  {
+  case 0: declare<P, A, double>(prob, s); break;
+  case 1: declare<P, A, int>(prob, s); break;
+  case 2: declare<P, A, long>(prob, s); break;
+  case 3: declare<P, A, float>(prob, s); break;
+  case 4: declare<P, A, unsigned>(prob, s); break;
+  case 5: declare<P, A, short>(prob, s); break;
+  case 6: declare<P, A, long long>(prob, s); break;
+  case 7: declare<P, A, std::size_t>(prob, s); break;
+  default: throw bad_request("type of the second endpoint");
+  }
+}
+
+template<class P> void declare_slot(P &prob, const slot &s)
+{
+  switch ((s.way / 10) % 10)
+  {
+  case 0: declare_b<P, double>(prob, s); break;
+  case 1: declare_b<P, int>(prob, s); break;
+  case 2: declare_b<P, long>(prob, s); break;
+  case 3: declare_b<P, float>(prob, s); break;
+  case 4: declare_b<P, unsigned>(prob, s); break;
+  case 5: declare_b<P, short>(prob, s); break;
+  case 6: declare_b<P, long long>(prob, s); break;
+  case 7: declare_b<P, std::size_t>(prob, s); break;
+  default: throw bad_request("type of the first endpoint");
+  }
+}
+
+template<class P> std::unique_ptr<P> make_problem(unsigned pway, const std::vector<slot> &ss)
+{
+  using V = typename prob_traits<P>::value;
+  if (pway == 0 || pway == 1)
+  {
+    std::vector<range_t<V>> rs;
+    for (std::size_t i(0); i < ss.size(); ++i)
+    {
+      if (ss[i].cat != i) throw bad_request("vector constructor needs one slot per category");
+      rs.push_back({exact<V>(ss[i].lo), exact<V>(ss[i].hi)});
+    }
+    if (pway == 0)
+      return std::make_unique<P>(rs);
+    for (const auto &r : rs)
+      if (r != rs[0]) throw bad_request("uniform constructor needs equal slots");
+    return std::make_unique<P>(rs.size(), rs[0]);
+  }
+  if (pway != 2) throw bad_request("problem way");
+
+  auto prob(std::make_unique<P>());
+  unsigned next(0);
+  for (const auto &s : ss)
+  {
+    if (s.cat > next) throw bad_request("categories must be contiguous");
+    if (s.cat < next && s.way / 100 != 4)
+      throw bad_request("a further terminal of an existing category needs an explicit category (kind 4)");
+    declare_slot(*prob, s);
+    if (s.cat == next) ++next;
+    if (prob->sset.categories() != next) throw bad_request("unexpected number of categories");
+  }
+  return prob;
+}
+
+// the weight interval, assigned to environment::de.weight the way a user would
+template<class A, class B> void weight_ab(environment &env, unsigned kind, double lo, double hi)
+{
+  const A a(exact<A>(lo));
+  const B b(exact<B>(hi));
+  switch (kind)
+  {
+  case 0: env.de.weight = vita::range(exact<A>(lo), exact<B>(hi)); break;
+  case 1: { A x(a); B y(b); env.de.weight = vita::range(x, y); break; }
+  case 2: env.de.weight = std::pair<A, B>(a, b); break;
+  case 3: env.de.weight = std::make_pair(a, b); break;
+  case 4: env.de.weight = {exact<double>(lo), exact<double>(hi)}; break;
+  case 5: env.de.weight.first = a; env.de.weight.second = b; break;
+  default: throw bad_request("weight kind");
+  }
+}
+
+template<class A> void weight_a(environment &env, unsigned way, double lo, double hi)
+{
+  switch (way % 10)
+  {
+  case 0: weight_ab<A, double>(env, way / 100, lo, hi); break;
+  case 1: weight_ab<A, int>(env, way / 100, lo, hi); break;
+  case 2: weight_ab<A, long>(env, way / 100, lo, hi); break;
+  case 3: weight_ab<A, float>(env, way / 100, lo, hi); break;
+  default: throw bad_request("weight type");
+  }
+}
+
+void declare_weight(environment &env, const std::string &tok)
+{
+  const auto f(split_on(tok, ':'));
+  if (f.size() != 3) throw bad_request("weight " + tok);
+  const unsigned way(std::stoul(f[0]));
+  const double lo(parse_end<double>(f[1])), hi(parse_end<double>(f[2]));
+  switch ((way / 10) % 10)
+  {
+  case 0: weight_a<double>(env, way, lo, hi); break;
+  case 1: weight_a<int>(env, way, lo, hi); break;
+  case 2: weight_a<long>(env, way, lo, hi); break;
+  case 3: weight_a<float>(env, way, lo, hi); break;
+  default: throw bad_request("weight type");
+  }
+}
+
+// ---- ages through the public API, with the harness's own count -------------------------------------------
+void set_genome(i_ga &x, const std::vector<int> &g) { for (std::size_t i(0); i < g.size(); ++i) x[i] = g[i]; }
+void set_genome(i_de &x, const std::vector<double> &g) { x = g; }
+
+template<class T> bool load_age(T &x, u64 age)
+{
+  const std::vector<typename T::value_type> g(x.begin(), x.end());
+  std::stringstream ss;
+  ss << age << '\n' << g.size() << '\n';
+  for (std::size_t i(0); i < g.size(); ++i) ss << 0 << '\n';
+  if (!x.load(ss)) return false;
+  set_genome(x, g);
+  return true;
+}
+
+// Gives `x` (age 0 … or whatever it has lived so far: `lived`) an age drawn from `r`; returns the AG step.
+// plan: 0 young  1 around 2^8  2 around 2^16 by inc_age  3 around 2^16 by load  4 around 2^31  5 just below 2^32
+//       6 some other magnitude by load
+template<class T> std::string give_age(T &x, u64 &lived, verif::splitmix &r, unsigned plan)
+{
+  const u64 max32(4294967295ull);
+  u64 by_load(0), incs(0);
+  bool use_load(false);
+  switch (plan)
+  {
+  case 0: incs = r.below(40); break;
+  case 1: incs = 250 + r.below(12); break;
+  case 2: incs = 65530 + r.below(13); break;
+  case 3: use_load = true; by_load = 65530 + r.below(13); incs = r.below(8); break;
+  case 4: use_load = true; by_load = 2147483645ull + r.below(7); incs = r.below(4); break;
+  case 5: { const u64 k(r.below(6)); use_load = true; by_load = max32 - k; incs = r.below(k + 1); break; }
+  default:
+    use_load = true;
+    {
+      static const u64 other[] = {70000, 131071, 131072, 1000000, 16777216, 1000000000, 3000000000ull};
+      by_load = other[r.below(sizeof(other) / sizeof(other[0]))];
+    }
+    incs = r.below(3);
+  }
+  if (use_load)
+  {
+    if (!load_age(x, by_load)) return "AG | load-failed " + std::to_string(by_load);
+    lived = by_load;
+  }
+  u64 done(0);
+  for (; done < incs && lived < max32; ++done) { x.inc_age(); ++lived; }
+  // AG | how base incs lived observed
+  return std::string("AG | ") + (use_load ? "load " : "inc ") + std::to_string(use_load ? by_load : 0) + " "
+         + std::to_string(done) + " " + std::to_string(lived) + " " + std::to_string(x.age());
+}
+
+unsigned age_plan(verif::splitmix &r)
+{
+  static const unsigned w[] = {0, 0, 0, 0, 0, 0, 1, 1, 2, 3, 3, 4, 4, 5, 5, 6};
+  return w[r.below(sizeof(w) / sizeof(w[0]))];
+}
+
+// ---- GA ------------------------------------------------------------------------------------------------------
 std::string do_gc(const std::vector<std::string> &t)
 {
   random::seed(std::stoul(t[1]));
-  const auto rs(int_ranges(t, 3));
-  ga_problem prob(rs);
+  const auto prob(make_problem<ga_problem>(std::stoul(t[3]), slots<int>(t, 4)));
   std::string out;
   for (unsigned k(std::stoul(t[2])); k; --k)
   {
-    const i_ga x(prob);
-    add(out, "GC" + range_txt(rs) + " | " + ints(x) + " ## " + std::to_string(x.age()));
+    const i_ga x(*prob);
+    add(out, "GC | " + genes(x) + " | " + std::to_string(x.age()));
   }
   return out;
 }
 
+// GM | pre | post | ret agePre agePost | livedPre | pbits
+// GX | lhs | rhs | child | ageL ageR ageC | livedL livedR
 std::string do_gseq(const std::vector<std::string> &t)
 {
   random::seed(std::stoul(t[1]));
   verif::splitmix op(std::stoull(t[2]));
-  const auto rs(int_ranges(t, 4));
-  ga_problem prob(rs);
+  const auto prob(make_problem<ga_problem>(std::stoul(t[4]), slots<int>(t, 5)));
 
+  std::string out;
   std::vector<i_ga> pool;
+  std::vector<u64> lived;
   for (int i(0); i < 6; ++i)
   {
-    pool.emplace_back(prob);
-    set_age(pool.back(), op.below(40));
+    pool.emplace_back(*prob);
+    lived.push_back(0);
+    add(out, give_age(pool.back(), lived.back(), op, age_plan(op)));
   }
 
   const double ps[] = {0.0, 0.05, 0.3, 0.5, 1.0};
-  std::string out;
   for (unsigned s(std::stoul(t[3])); s; --s)
   {
     const auto k(op.below(pool.size()));
@@ -108,35 +337,99 @@ std::string do_gseq(const std::vector<std::string> &t)
     {
       const i_ga pre(pool[k]);
       const double p(ps[op.below(5)]);
-      const unsigned n(pool[k].mutation(p, prob));
-      add(out, "GM" + range_txt(rs) + " | " + ints(pre) + " | " + ints(pool[k]) + " | " + std::to_string(n)
+      const unsigned n(pool[k].mutation(p, *prob));
+      add(out, "GM | " + genes(pre) + " | " + genes(pool[k]) + " | " + std::to_string(n)
                + " " + std::to_string(pre.age()) + " " + std::to_string(pool[k].age())
-               + " ## " + std::to_string(verif::bits(p)));
+               + " | " + std::to_string(lived[k]) + " | " + std::to_string(verif::bits(p)));
     }
     else
     {
       const auto i(op.below(pool.size())), j(op.below(pool.size()));
       const i_ga child(crossover(pool[i], pool[j]));
-      add(out, "GX" + range_txt(rs) + " | " + ints(pool[i]) + " | " + ints(pool[j]) + " | " + ints(child)
+      add(out, "GX | " + genes(pool[i]) + " | " + genes(pool[j]) + " | " + genes(child)
                + " | " + std::to_string(pool[i].age()) + " " + std::to_string(pool[j].age()) + " "
-               + std::to_string(child.age()) + " ## -");
+               + std::to_string(child.age()) + " | " + std::to_string(lived[i]) + " " + std::to_string(lived[j]));
+      const u64 l(std::max(lived[i], lived[j]));
       pool[k] = child;
-      if (op.below(3) == 0) pool[k].inc_age();
+      lived[k] = l;
+      if (op.below(3) == 0 && lived[k] < 4294967295ull) { pool[k].inc_age(); ++lived[k]; }
     }
   }
   return out;
 }
 
+template<class T> std::string pop_step(const population<T> &pop, const std::vector<u64> &lived)
+{
+  std::string g, a, l;
+  for (unsigned i(0); i < pop.individuals(0); ++i)
+  {
+    if (i) { g += " ; "; a += ' '; l += ' '; }
+    g += genes(pop[{0, i}]);
+    a += std::to_string(pop[{0, i}].age());
+    l += std::to_string(lived[i]);
+  }
+  return "POP | " + g + " | " + a + " | " + l;
+}
+
+template<class T> void age_population(population<T> &pop, std::vector<u64> &lived, verif::splitmix &op,
+                                      std::string &out)
+{
+  for (unsigned i(0); i < pop.individuals(0); ++i)
+  {
+    lived.push_back(0);
+    add(out, give_age(pop[{0, i}], lived.back(), op, age_plan(op)));
+  }
+}
+
+// POP | g0 ; g1 ; … | ages | lived          then per call of recombination::base<i_ga>::run(parents):
+// GS | parents (indices) | offspring | ageOff | crossovers mutations (what the call added to the summary)
+std::string do_gstr(const std::vector<std::string> &t)
+{
+  random::seed(std::stoul(t[1]));
+  verif::splitmix op(std::stoull(t[2]));
+  const auto prob(make_problem<ga_problem>(std::stoul(t[7]), slots<int>(t, 8)));
+  prob->env.individuals = 3 + op.below(6);
+  prob->env.p_cross = verif::from_bits(std::stoull(t[4]));
+  prob->env.p_mutation = verif::from_bits(std::stoull(t[5]));
+  prob->env.brood_recombination = std::stoul(t[6]);
+  prob->env.mate_zone = 1 + op.below(2 * prob->env.individuals);
+  prob->env.tournament_size = 2;
+
+  std::string out;
+  population<i_ga> pop(*prob);
+  std::vector<u64> lived;
+  age_population(pop, lived, op, out);
+  add(out, pop_step(pop, lived));
+
+  test_evaluator<i_ga> eva(test_evaluator_type::random);
+  summary<i_ga> stats;
+  recombination::base<i_ga> rec(pop, eva, &stats);
+  for (unsigned s(std::stoul(t[3])); s; --s)
+  {
+    recombination::base<i_ga>::parents_t parents;
+    const unsigned np(1 + (op.below(4) != 0));
+    for (unsigned k(0); k < np; ++k) parents.push_back({0, unsigned(op.below(pop.individuals(0)))});
+    const auto c0(stats.crossovers), m0(stats.mutations);
+    const auto off(rec.run(parents));
+    if (off.size() != 1) { add(out, "GS | wrong-number-of-offspring " + std::to_string(off.size())); continue; }
+    std::string ps;
+    for (auto c : parents) ps += (ps.empty() ? "" : " ") + std::to_string(c.index);
+    add(out, "GS | " + ps + " | " + genes(off[0]) + " | " + std::to_string(off[0].age()) + " | "
+             + std::to_string(stats.crossovers - c0) + " " + std::to_string(stats.mutations - m0));
+  }
+  return out;
+}
+
+// ---- DE ------------------------------------------------------------------------------------------------------
 std::string do_dc(const std::vector<std::string> &t)
 {
   random::seed(std::stoul(t[1]));
-  const auto rs(real_ranges(t, 3));
-  de_problem prob(rs);
+  const auto prob(make_problem<de_problem>(std::stoul(t[3]), slots<double>(t, 4)));
   std::string out;
   for (unsigned k(std::stoul(t[2])); k; --k)
   {
-    const i_de x(prob);
-    add(out, "DC" + range_txt(rs) + " | " + dbits(x) + " ## " + std::to_string(x.age()));
+    const i_de x(*prob);
+    add(out, "DC | " + genes(x) + " | " + std::to_string(x.age()));
   }
   return out;
 }
@@ -149,53 +442,141 @@ double adversarial(verif::splitmix &r, double lo, double hi)
   case 1:  return -0.0;
   case 2:  return lo;
   case 3:  return hi;
-  case 4:  return (lo + hi) / 2;
+  case 4:  return lo / 2 + hi / 2;
   case 5:  return 1e9 + double(r.below(1000));
   case 6:  return double(r.between(-5, 6)) * 1e-9;
   default: return lo + (hi - lo) * (double(r.below(1 << 20)) / (1 << 20));
   }
 }
 
+// first declared interval of every category (adversarial values are built from it)
+std::vector<range_t<double>> first_ranges(const std::vector<slot> &ss)
+{
+  std::vector<range_t<double>> r;
+  for (const auto &s : ss)
+    if (s.cat == r.size()) r.push_back({s.lo, s.hi});
+  return r;
+}
+
+void make_adversarial(i_de &ind, const std::vector<range_t<double>> &rs, verif::splitmix &op)
+{
+  std::vector<double> v(rs.size());
+  for (std::size_t i(0); i < v.size(); ++i)
+    v[i] = adversarial(op, rs[i].first, rs[i].second);
+  ind = v;
+}
+
+// DX | target | a | b | c | trial | aT aA aB aC aTrial | lT lA lB lC      (the weight actually used is
+// env.de.weight as the library recorded it after the user-style assignment)
 std::string do_dx(const std::vector<std::string> &t)
 {
   random::seed(std::stoul(t[1]));
   verif::splitmix op(std::stoull(t[2]));
   const unsigned trials(std::stoul(t[3]));
   const double p(verif::from_bits(std::stoull(t[4])));
-  const range_t<double> w(verif::from_bits(std::stoull(t[5])), verif::from_bits(std::stoull(t[6])));
-  const int mode(std::stoi(t[7]));
-  const auto rs(real_ranges(t, 8));
-  de_problem prob(rs);
+  const int mode(std::stoi(t[6]));
+  const auto ss(slots<double>(t, 8));
+  const auto prob(make_problem<de_problem>(std::stoul(t[7]), ss));
+  declare_weight(prob->env, t[5]);
+  prob->env.p_cross = p;
+  const auto rs(first_ranges(ss));
 
   std::string out;
   for (unsigned k(0); k < trials; ++k)
   {
-    i_de x[4] = {i_de(prob), i_de(prob), i_de(prob), i_de(prob)};   // target, a, b, c
+    i_de x[4] = {i_de(*prob), i_de(*prob), i_de(*prob), i_de(*prob)};   // target, a, b, c
     if (mode == 1)
-      for (auto &ind : x)
-      {
-        std::vector<double> v(rs.size());
-        for (std::size_t i(0); i < v.size(); ++i)
-          v[i] = adversarial(op, rs[i].first, rs[i].second);
-        ind = v;
-      }
+      for (auto &ind : x) make_adversarial(ind, rs, op);
     if (mode == 1 && op.below(3) == 0)         // equal donors somewhere: difference exactly zero
     {
-      std::vector<double> va(x[1]), vb(x[2]);
+      std::vector<double> va(x[1].begin(), x[1].end()), vb(x[2].begin(), x[2].end());
       for (std::size_t i(0); i < va.size(); ++i)
         if (op.below(2)) vb[i] = va[i];
       x[2] = vb;
     }
-    for (auto &ind : x) set_age(ind, op.below(30));
+    u64 lived[4] = {0, 0, 0, 0};
+    for (int i(0); i < 4; ++i) add(out, give_age(x[i], lived[i], op, age_plan(op)));
 
-    const i_de tr(x[0].crossover(p, w, x[1], x[2], x[3]));
-    add(out, "DX " + t[4] + " " + t[5] + " " + t[6] + " | " + dbits(x[0]) + " | " + dbits(x[1]) + " | "
-             + dbits(x[2]) + " | " + dbits(x[3]) + " | " + dbits(tr) + " | "
+    const i_de tr(x[0].crossover(prob->env.p_cross, prob->env.de.weight, x[1], x[2], x[3]));
+    add(out, "DX | " + genes(x[0]) + " | " + genes(x[1]) + " | " + genes(x[2]) + " | " + genes(x[3]) + " | "
+             + genes(tr) + " | "
              + std::to_string(x[0].age()) + " " + std::to_string(x[1].age()) + " "
              + std::to_string(x[2].age()) + " " + std::to_string(x[3].age()) + " "
-             + std::to_string(tr.age()) + " ## -");
+             + std::to_string(tr.age()) + " | " + std::to_string(lived[0]) + " " + std::to_string(lived[1]) + " "
+             + std::to_string(lived[2]) + " " + std::to_string(lived[3]));
   }
   return out;
+}
+
+// POP | …      then per call of recombination::de<i_de>::run(parents):
+// DS | parents (indices) | offspring | ageOff
+std::string do_dstr(const std::vector<std::string> &t)
+{
+  random::seed(std::stoul(t[1]));
+  verif::splitmix op(std::stoull(t[2]));
+  const double p(verif::from_bits(std::stoull(t[4])));
+  const int mode(std::stoi(t[6]));
+  const auto ss(slots<double>(t, 8));
+  const auto prob(make_problem<de_problem>(std::stoul(t[7]), ss));
+  declare_weight(prob->env, t[5]);
+  prob->env.p_cross = p;
+  prob->env.individuals = 4 + op.below(4);
+  prob->env.mate_zone = 1 + op.below(2 * prob->env.individuals);
+  prob->env.tournament_size = 2;
+  const auto rs(first_ranges(ss));
+
+  std::string out;
+  population<i_de> pop(*prob);
+  if (mode == 1)
+    for (unsigned i(0); i < pop.individuals(0); ++i)
+      if (op.below(2)) make_adversarial(pop[{0, i}], rs, op);
+  std::vector<u64> lived;
+  age_population(pop, lived, op, out);
+  add(out, pop_step(pop, lived));
+
+  test_evaluator<i_de> eva(test_evaluator_type::random);
+  summary<i_de> stats;
+  recombination::de<i_de> rec(pop, eva, &stats);
+  for (unsigned s(std::stoul(t[3])); s; --s)
+  {
+    recombination::de<i_de>::parents_t parents;
+    const unsigned np(1 + (op.below(4) != 0));
+    for (unsigned k(0); k < np; ++k) parents.push_back({0, unsigned(op.below(pop.individuals(0)))});
+    const auto off(rec.run(parents));
+    if (off.size() != 1) { add(out, "DS | wrong-number-of-offspring " + std::to_string(off.size())); continue; }
+    std::string ps;
+    for (auto c : parents) ps += (ps.empty() ? "" : " ") + std::to_string(c.index);
+    add(out, "DS | " + ps + " | " + genes(off[0]) + " | " + std::to_string(off[0].age()));
+  }
+  return out;
+}
+
+// ---- IEEE facts used as hypotheses by the Lean theorems, evaluated on this machine's doubles ---------------------
+// laws <lobits> <hibits> …   for every box: the largest canonical draw u = 1 − 2^-53 and a few others;
+// LW | lo hi | w | u y x ; u y x ; …   w = hi − lo, y = u*w, x = lo + y  (each one rounded operation, volatile)
+std::string do_laws(const std::vector<std::string> &t)
+{
+  std::string out;
+  const double us[] = {0.0, 0x1p-53, 0.25, 0.5, 1.0 - 0x1p-52, 1.0 - 0x1p-53};
+  for (std::size_t i(1); i + 1 < t.size(); i += 2)
+  {
+    const volatile double lo(verif::from_bits(std::stoull(t[i]))), hi(verif::from_bits(std::stoull(t[i + 1])));
+    const volatile double w(hi - lo);
+    std::string s("LW | " + std::to_string(verif::bits(lo)) + " " + std::to_string(verif::bits(hi)) + " | "
+                  + std::to_string(verif::bits(w)) + " | ");
+    bool first(true);
+    for (double u0 : us)
+    {
+      const volatile double u(u0);
+      const volatile double y(u * w);
+      const volatile double x(lo + y);
+      s += std::string(first ? "" : " ; ") + std::to_string(verif::bits(u)) + " " + std::to_string(verif::bits(y))
+           + " " + std::to_string(verif::bits(x));
+      first = false;
+    }
+    add(out, s);
+  }
+  return out.empty() ? "bad-request" : out;
 }
 
 }  // namespace
@@ -213,8 +594,15 @@ int main()
     {
       if (t.size() >= 5 && t[0] == "gc") ans = do_gc(t);
       else if (t.size() >= 6 && t[0] == "gseq") ans = do_gseq(t);
+      else if (t.size() >= 9 && t[0] == "gstr") ans = do_gstr(t);
       else if (t.size() >= 5 && t[0] == "dc") ans = do_dc(t);
-      else if (t.size() >= 10 && t[0] == "dx") ans = do_dx(t);
+      else if (t.size() >= 9 && t[0] == "dx") ans = do_dx(t);
+      else if (t.size() >= 9 && t[0] == "dstr") ans = do_dstr(t);
+      else if (t.size() >= 3 && t[0] == "laws") ans = do_laws(t);
+    }
+    catch (const bad_request &e)
+    {
+      ans = std::string("bad-request ") + e.what();
     }
     catch (const std::exception &e)
     {
